@@ -38,10 +38,12 @@ def aligned(s, out, allow_insert=False):
         if allow_insert and j < m:
             if out[j] in '}]':
                 stack.append((i, j + 1))
-            if out[j] == '\\':
-                mo = end_re.match(out, j)
-                if mo:
-                    stack.append((i, mo.end()))
+            if out.startswith('\\end{', j):
+                # an inserted \end{name}: the name may itself contain braces
+                k = out.find('}', j + 5)
+                while k != -1:
+                    stack.append((i, k + 1))
+                    k = out.find('}', k + 1)
     return False
 
 
@@ -100,7 +102,22 @@ def f4b_repair(s):
     s2 = re.sub(r'\\(begin|end)([ \t\n\r]*)\[([^\[\]{}]*)\]', lambda m: '\\%s%s{%s}' % (m.group(1), m.group(2), m.group(3)), s)
     s2 = re.sub(r'\\(begin|end)([ \t\n\r]*)\{[ \t\n\r]*([^{}]*?)[ \t\n\r]*\}',
                 lambda m: '\\%s%s{%s}' % (m.group(1), m.group(2), m.group(3)), s2)
+    s2 = re.sub(r'\\(begin|end)([ \t\n\r]*)\[', lambda m: '\\%s%s{' % (m.group(1), m.group(2)), s2)
+    # blanks right after the opening brace of the name, and (unclosed, tolerant mode) blanks that end the input
+    s2 = re.sub(r'\\(begin|end)([ \t\n\r]*)\{[ \t\n\r]+', lambda m: '\\%s%s{' % (m.group(1), m.group(2)), s2)
+    s2 = re.sub(r'(\\(?:begin|end)[ \t\n\r]*\{[^{}]*?)[ \t\n\r]+$', lambda m: m.group(1), s2)
     return s2
+
+
+_HIDDEN = re.compile(r'\\(begin|end)[ \t\n\r]*[\[{][^{}]*\\(def|textbf|section|label)(?![A-Za-z*])')
+
+
+def hidden_bare(s):
+    """A fixed-signature command inside the group that names an environment: its (possibly made-up)
+    argument ends up in the environment *name*, where has_bare_args cannot see it. Such inputs are
+    outside the side condition of C08/C16 ("mandatory arguments ... are brace-delimited") unless
+    proven otherwise, so they are skipped."""
+    return _HIDDEN.search(s) is not None
 
 
 def timed_parse(s, tol=0, skip=()):
